@@ -513,9 +513,13 @@ class Check:
         os.replace(tmp, os.path.join(EVID, "%s.json" % self.pid))
         for k in self.known_hits:
             print("KNOWN-FINDING: property=%s %s" % (self.pid, k["what"]), flush=True)
+        shown = {}
         for key, what, rp in vio_out:
+            shown[key] = shown.get(key, 0) + 1
+            if shown[key] > 2:
+                continue      # same signature again: the replay file exists, the line is not repeated
             print("VIOLATION property=%s replay=%s" % (self.pid, rp), flush=True)
-            print("  key=%s :: %s" % (key, what), flush=True)
+            print("  key=%s :: %s" % (key, what[:600]), flush=True)
         print("[%s] tier=%s seed=%d states=%d evaluations=%d distinct_nontrivial=%d replayed=%d violations=%d wall=%.1fs" % (
             self.pid, self.tier, self.seed, self.cov["states"], self.cov["evaluations"],
             self.cov["distinct_nontrivial"], self.cov["traces_validated_against_impl"], len(self.violations), wall),
